@@ -4,6 +4,7 @@ import (
 	"bufio"
 	"bytes"
 	"context"
+	"errors"
 	"encoding/json"
 	"fmt"
 	"io"
@@ -17,6 +18,7 @@ import (
 	"github.com/enfein/mieru/v3/pkg/cipher"
 	"github.com/enfein/mieru/v3/pkg/common"
 	"github.com/enfein/mieru/v3/pkg/protocol"
+	"github.com/enfein/mieru/v3/pkg/socks5"
 	"verifharness/sim"
 	"verifharness/simnet"
 	"verifharness/wire"
@@ -347,6 +349,8 @@ func (c *c10Child) runServerCase(k *c10Case) c10Reply {
 	}
 	content := make([]byte, 70000)
 	underlayClosed := false
+	gone := map[uint32]bool{}    // sessions already seen closed by an earlier step
+	created := map[uint32]bool{} // sessions an earlier step created
 	var prevRaw []byte
 	var prevFrom *c10Peer
 	for i := range k.Steps {
@@ -374,9 +378,13 @@ func (c *c10Child) runServerCase(k *c10Case) c10Reply {
 		if c.udp && s.From == "fresh" {
 			from = fresh
 		}
-		// the hostile payload is a marker the application would recognise
-		hm := c10Marker(fmt.Sprintf("hostile-%d", k.Seed&0xffff), i)
-		copy(content, bytes.Repeat(hm, len(content)/len(hm)+1))
+		// hostile payloads consist of bytes >= 0x80; everything else the applications exchange is ASCII
+		c10HostileContent(content, k.Seed, i)
+		hi0 := 0
+		if a := c.appSess(sid); a != nil {
+			got, _ := a.snapshot()
+			hi0 = c10HighBytes(got)
+		}
 		var raw []byte
 		home.mu.Lock()
 		closeReqs0 := home.closeReqs[sid]
@@ -404,22 +412,25 @@ func (c *c10Child) runServerCase(k *c10Case) c10Reply {
 					}
 				}
 			}
+			if s.SeqSel == "next" && s.Expect == "deliver" && c10IsData(s.Proto) {
+				if ps := home.sess[sid]; ps != nil && seq >= ps.nextSend {
+					ps.nextSend = seq + 1 // the endpoint will consume this number
+				}
+			}
 			key := keys[s.KeyUser]
 			if c.udp {
 				nonce := from.nonce(s.KeyUser)
 				meta, tail := s.build(key, nonce, sid, seq, time.Now(), content)
 				raw = wire.SealUDPRaw(key, nonce, meta, tail)
 			} else {
+				// the nonce sequence is the connection's; only the key changes when another credential is used
 				enc := home.enc
-				if s.KeyUser != "bob" {
-					// another credential on bob's connection: the metadata cannot authenticate under t.recv
-					enc = &wire.StreamEncoder{Key: key, Nonce: append([]byte(nil), home.enc.Nonce...)}
-					enc.SealRawStream(nil, nil, false) // mark the nonce prefix as sent
-					enc.Nonce = append([]byte(nil), home.enc.Nonce...)
-				}
+				saved := enc.Key
+				enc.Key = key
 				l := s.layout()
 				meta, tail := s.build(key, enc.PayloadNonce(), sid, seq, time.Now(), content)
 				raw = enc.SealRawStream(meta, tail, l.declPay > 0 && l.auth)
+				enc.Key = saved
 			}
 		}
 		home.mu.Unlock()
@@ -458,24 +469,43 @@ func (c *c10Child) runServerCase(k *c10Case) c10Reply {
 			home.mu.Lock()
 			defer home.mu.Unlock()
 			ps := home.sess[id]
-			return !closed && ps != nil && !ps.closeSeen
+			return !closed && ps != nil && !ps.closeSeen && !gone[id]
 		}
 		if !c.udp {
-			// first learn whether the connection survived
-			if otherOwn != 0 && ownAlive(otherOwn) && !forceRead {
-				o.Bystander = probeOwn(otherOwn)
+			// first learn whether the connection survived: an echo is a positive sign of life, EOF a positive
+			// sign of death; a reader stuck in the post-error drain needs more bytes before it closes
+			life := otherOwn
+			if life == 0 || !ownAlive(life) {
+				life = 0
+				for _, id := range own {
+					if id != otherOwn && ownAlive(id) && s.Expect != "closeSession" {
+						life = id
+					}
+				}
 			}
-			if o.Bystander != "echo" {
-				// no positive sign of life yet: a closed underlay shows as EOF; a reader stuck in the
-				// post-error drain needs more bytes
-				if !home.wait(300*time.Millisecond, func() bool { return home.eof }) && o.Bystander != "none" {
+			if life != 0 && !forceRead {
+				to := c10ProbeTimeout
+				if s.Expect == "closeUnderlay" {
+					to = 300 * time.Millisecond
+				}
+				c.markerSeq++
+				r := home.probe(life, c10Marker("probe", c.markerSeq), to)
+				if life == otherOwn {
+					o.Bystander = r
+				} else if r != "echo" {
+					o.Bystander = r
+				}
+				if r == "echo" {
+					life = 0xffffffff // alive
+				}
+			}
+			if life != 0xffffffff && (s.Expect == "closeUnderlay" || forceRead || o.Bystander == "closed" || o.Bystander == "silent") {
+				if !home.wait(300*time.Millisecond, func() bool { return home.eof }) {
 					home.mu.Lock()
 					home.sendRawLocked(make([]byte, 40000))
 					home.mu.Unlock()
 				}
-				if s.Expect == "closeUnderlay" || o.Bystander == "closed" || o.Bystander == "silent" {
-					home.wait(12*time.Second, func() bool { return home.eof })
-				}
+				home.wait(12*time.Second, func() bool { return home.eof })
 			}
 			home.mu.Lock()
 			if home.eof {
@@ -509,23 +539,32 @@ func (c *c10Child) runServerCase(k *c10Case) c10Reply {
 			a := c.appSess(sid)
 			c.mu.Lock()
 			for _, id := range c.order[accepts0:] {
-				if id == sid && !isOwn {
+				if id == sid && !isOwn && !created[sid] {
 					o.Created = true
 				}
 			}
 			c.mu.Unlock()
+			if o.Created {
+				created[sid] = true
+			}
 			if a != nil {
 				got, closed := a.snapshot()
-				o.TargetGone = closed && (isOwn || o.Created)
-				o.AppGot = s.PayloadN > 0 && bytes.Contains(got, hm)
+				o.TargetGone = closed && (isOwn || created[sid]) && !gone[sid]
+				if closed {
+					gone[sid] = true
+				}
+				o.AppGot = c10HighBytes(got) > hi0
 			}
 			if isOwn {
-				if o.TargetGone {
+				if gone[sid] && !o.TargetGone {
+					o.Target = "none" // closed by an earlier step
+				} else if gone[sid] {
 					o.Target = "closed"
 				} else {
 					o.Target = probeOwn(sid)
 					if o.Target == "closed" {
 						o.TargetGone = true
+						gone[sid] = true
 					}
 				}
 			}
@@ -541,15 +580,6 @@ func (c *c10Child) runServerCase(k *c10Case) c10Reply {
 				fresh.mu.Unlock()
 			}
 			o.ReplyClose = n > closeReqs0 && !isOwn
-			if o.Created {
-				// a session created by a hostile open request becomes an own session for later steps
-				own = append(own, sid)
-				if from.sess[sid] == nil {
-					from.mu.Lock()
-					from.sess[sid] = &c10PeerSess{id: sid, buffered: map[uint32][]byte{}, nextSend: 1, opened: true}
-					from.mu.Unlock()
-				}
-			}
 		} else {
 			// everything on the connection went down with it
 			for _, id := range own {
@@ -582,21 +612,9 @@ func (c *c10Child) runServerCase(k *c10Case) c10Reply {
 
 func (c *c10Child) startClient() error {
 	c.net = simnet.New(c.seed)
-	cl := protocol.NewMux(true)
-	cl.SetDialer(c.net)
-	cl.SetPacketDialer(c.net)
-	cl.SetResolver(apicommon.NilDNSResolver{})
-	tp, err := trafficpattern.NewConfig(nil)
-	if err != nil {
+	if err := c.newClientMux(); err != nil {
 		return err
 	}
-	cl.SetTrafficPattern(tp)
-	u := c10Users[0]
-	cl.SetClientUserNamePassword(u.Name, cipher.HashPassword([]byte(u.Password), []byte(u.Name)))
-	cl.SetClientMultiplexFactor(3)
-	tr := protocol.NewUnderlayProperties(1400, c10Transport(c.udp), nil, c10ServerAddr(c.udp))
-	cl.SetEndpoints([]protocol.UnderlayProperties{tr})
-	c.cl = cl
 	if c.udp {
 		pc, err := c.net.ListenPacket(context.Background(), "udp", "10.8.0.1:8964", "")
 		if err != nil {
@@ -612,6 +630,31 @@ func (c *c10Child) startClient() error {
 		c.fakeLn = ln
 		go c.fakeServeTCP()
 	}
+	return nil
+}
+
+// newClientMux gives every case a fresh real client: an underlay that a previous case ruined keeps
+// accepting new sessions for seconds while it closes its old ones one by one, which would make the
+// next case's set-up fail for reasons that have nothing to do with it.
+func (c *c10Child) newClientMux() error {
+	if old := c.cl; old != nil {
+		go old.Close()
+	}
+	cl := protocol.NewMux(true)
+	cl.SetDialer(c.net)
+	cl.SetPacketDialer(c.net)
+	cl.SetResolver(apicommon.NilDNSResolver{})
+	tp, err := trafficpattern.NewConfig(nil)
+	if err != nil {
+		return err
+	}
+	cl.SetTrafficPattern(tp)
+	u := c10Users[0]
+	cl.SetClientUserNamePassword(u.Name, cipher.HashPassword([]byte(u.Password), []byte(u.Name)))
+	cl.SetClientMultiplexFactor(3)
+	tr := protocol.NewUnderlayProperties(1400, c10Transport(c.udp), nil, c10ServerAddr(c.udp))
+	cl.SetEndpoints([]protocol.UnderlayProperties{tr})
+	c.cl = cl
 	return nil
 }
 
@@ -717,7 +760,10 @@ func (c *c10Child) dialApp() (*c10AppSess, error) {
 	a.id, _ = protocol.VerifSessionID(conn)
 	go c.pump(a, false)
 	if r := c.probeApp(a, c10ProbeTimeout); r != "echo" {
-		return a, fmt.Errorf("application session %d does not echo: %s", a.id, r)
+		a.mu.Lock()
+		why := a.errs
+		a.mu.Unlock()
+		return a, fmt.Errorf("application session %d does not echo: %s (%s)", a.id, r, why)
 	}
 	return a, nil
 }
@@ -726,14 +772,31 @@ func (c *c10Child) runClientCase(k *c10Case) c10Reply {
 	var rep c10Reply
 	c10AvoidSlotBoundary()
 	start := time.Now()
+	if err := c.newClientMux(); err != nil {
+		rep.Error = "setup: " + err.Error()
+		return rep
+	}
+	c.mu.Lock()
+	c.peers = nil
+	c.mu.Unlock()
 	// two application sessions that share an underlay if the scheduler allows, one on any other
 	var apps []*c10AppSess
 	var s1, s2, other *c10AppSess
-	for i := 0; i < 8 && (s2 == nil || other == nil); i++ {
+	failures := 0
+	for i := 0; i < 12 && (s2 == nil || other == nil); i++ {
 		a, err := c.dialApp()
 		if err != nil {
-			rep.Error = "setup: " + err.Error()
-			return rep
+			// an underlay that a previous case ruined may still be around for a moment
+			if a != nil {
+				go a.conn.Close()
+			}
+			failures++
+			if failures > 6 {
+				rep.Error = "setup: " + err.Error()
+				return rep
+			}
+			time.Sleep(50 * time.Millisecond)
+			continue
 		}
 		apps = append(apps, a)
 		if s1 == nil {
@@ -753,6 +816,10 @@ func (c *c10Child) runClientCase(k *c10Case) c10Reply {
 			go a.conn.Close()
 		}
 	}()
+	if s1 == nil {
+		rep.Error = "setup: no application session could be opened"
+		return rep
+	}
 	rep.SetupOK = true
 	rep.SameUnder = s2 != nil
 	rep.Own = []uint32{s1.id, 0}
@@ -768,7 +835,20 @@ func (c *c10Child) runClientCase(k *c10Case) c10Reply {
 	keys := c10Keys(start)
 	content := make([]byte, 70000)
 	underlayClosed := false
+	goneApp := map[*c10AppSess]bool{}
 	var prevRaw []byte
+	// a legitimate ack re-opens the window a hostile segment may have closed (window = 0 stalls the
+	// session it is sent to, which is the sender's own business, not a crash)
+	refresh := func(a *c10AppSess) {
+		if a == nil || !c.udp {
+			return
+		}
+		peer.mu.Lock()
+		if ps := peer.sess[a.id]; ps != nil {
+			peer.ackLocked(ps)
+		}
+		peer.mu.Unlock()
+	}
 	for i := range k.Steps {
 		s := &k.Steps[i]
 		o := c10Obs{Target: "none", Bystander: "none", Underlay: "up"}
@@ -795,10 +875,15 @@ func (c *c10Child) runClientCase(k *c10Case) c10Reply {
 			}
 		}
 		o.Sid = sid
-		hm := c10Marker(fmt.Sprintf("hostile-%d", k.Seed&0xffff), i)
-		copy(content, bytes.Repeat(hm, len(content)/len(hm)+1))
+		c10HostileContent(content, k.Seed, i)
+		hi0 := 0
+		if target != nil {
+			got, _ := target.snapshot()
+			hi0 = c10HighBytes(got)
+		}
 		var raw []byte
 		peer.mu.Lock()
+		closeReqs0 := peer.closeReqs[sid]
 		switch s.Kind {
 		case "garbage":
 			raw = make([]byte, s.Len)
@@ -810,6 +895,12 @@ func (c *c10Child) runClientCase(k *c10Case) c10Reply {
 			if s.SeqSel == "next" {
 				if ps := peer.sess[sid]; ps != nil {
 					seq = ps.nextSend
+					if c.udp && ps.peerUnAck > seq {
+						seq = ps.peerUnAck
+					}
+					if s.Expect == "deliver" && c10IsData(s.Proto) {
+						ps.nextSend = seq + 1
+					}
 				}
 			}
 			key := keys[s.KeyUser]
@@ -819,19 +910,12 @@ func (c *c10Child) runClientCase(k *c10Case) c10Reply {
 				raw = wire.SealUDPRaw(key, nonce, meta, tail)
 			} else {
 				enc := peer.enc
-				if s.KeyUser != "alice" {
-					enc = &wire.StreamEncoder{Key: key, Nonce: append([]byte(nil), peer.enc.Nonce...)}
-					enc.SealRawStream(nil, nil, false)
-					enc.Nonce = append([]byte(nil), peer.enc.Nonce...)
-				}
+				saved := enc.Key
+				enc.Key = key
 				l := s.layout()
 				meta, tail := s.build(key, enc.PayloadNonce(), sid, seq, time.Now(), content)
 				raw = enc.SealRawStream(meta, tail, l.declPay > 0 && l.auth)
-				if s.SeqSel == "next" && c10IsData(s.Proto) {
-					if ps := peer.sess[sid]; ps != nil {
-						ps.nextSend++
-					}
-				}
+				enc.Key = saved
 			}
 		}
 		prevRaw = raw
@@ -849,19 +933,30 @@ func (c *c10Child) runClientCase(k *c10Case) c10Reply {
 		if target == s2 {
 			by = s1
 		}
+		if by != nil && goneApp[by] {
+			by = nil
+		}
 		if by != nil && !forceRead {
-			o.Bystander = c.probeApp(by, c10ProbeTimeout)
+			refresh(by)
+			to := c10ProbeTimeout
+			if s.Expect == "closeUnderlay" {
+				to = 300 * time.Millisecond
+			}
+			o.Bystander = c.probeApp(by, to)
 		}
 		if !c.udp {
-			if o.Bystander != "echo" {
-				if !peer.wait(300*time.Millisecond, func() bool { return peer.eof }) && o.Bystander != "none" {
+			alive := o.Bystander == "echo"
+			if !alive && by == nil && target != nil && !goneApp[target] && !forceRead && s.Expect != "closeSession" && s.Expect != "closeUnderlay" {
+				// no second session on this underlay: the target itself is the sign of life
+				alive = c.probeApp(target, c10ProbeTimeout) == "echo"
+			}
+			if !alive && (s.Expect == "closeUnderlay" || forceRead || o.Bystander == "closed" || o.Bystander == "silent") {
+				if !peer.wait(300*time.Millisecond, func() bool { return peer.eof }) {
 					peer.mu.Lock()
 					peer.sendRawLocked(make([]byte, 40000))
 					peer.mu.Unlock()
 				}
-				if s.Expect == "closeUnderlay" || o.Bystander == "closed" || o.Bystander == "silent" {
-					peer.wait(12*time.Second, func() bool { return peer.eof })
-				}
+				peer.wait(12*time.Second, func() bool { return peer.eof })
 			}
 			peer.mu.Lock()
 			if peer.eof {
@@ -882,19 +977,27 @@ func (c *c10Child) runClientCase(k *c10Case) c10Reply {
 				time.Sleep(20 * time.Millisecond)
 			}
 			got, closed := target.snapshot()
-			o.AppGot = s.PayloadN > 0 && bytes.Contains(got, hm)
-			if closed {
+			o.AppGot = c10HighBytes(got) > hi0
+			if goneApp[target] {
+				o.Target = "none" // closed by an earlier step
+			} else if closed {
 				o.TargetGone, o.Target = true, "closed"
+				goneApp[target] = true
 			} else {
+				refresh(target)
 				o.Target = c.probeApp(target, c10ProbeTimeout)
 				if o.Target == "closed" {
 					o.TargetGone = true
+					goneApp[target] = true
 				}
 			}
 		}
 		if !underlayClosed {
+			if s.Expect == "drop+reply" {
+				peer.wait(c10ProbeTimeout, func() bool { return peer.closeReqs[sid] > closeReqs0 })
+			}
 			peer.mu.Lock()
-			o.ReplyClose = peer.closeReqs[sid] > 0 && target == nil
+			o.ReplyClose = peer.closeReqs[sid] > closeReqs0 && target == nil
 			peer.mu.Unlock()
 		}
 		rep.Obs = append(rep.Obs, o)
@@ -909,6 +1012,79 @@ func (c *c10Child) runClientCase(k *c10Case) c10Reply {
 }
 
 // ------------------------------------------------------------------------------------------------
+
+// c10MixedConn is a tunnel transport whose two directions fail with errors of different concrete
+// types, as a TCP or TLS connection does (*net.OpError on Write, io.EOF on Read).
+type c10MixedConn struct {
+	release chan struct{}
+	writes  chan struct{}
+}
+
+func (c *c10MixedConn) Read(p []byte) (int, error) { <-c.release; return 0, io.EOF }
+func (c *c10MixedConn) Write(p []byte) (int, error) {
+	select {
+	case c.writes <- struct{}{}:
+	default:
+	}
+	return 0, &net.OpError{Op: "write", Net: "tcp", Err: errors.New("broken pipe")}
+}
+func (c *c10MixedConn) Close() error                       { return nil }
+func (c *c10MixedConn) LocalAddr() net.Addr                { return &net.TCPAddr{IP: net.IPv4(127, 0, 0, 1), Port: 1} }
+func (c *c10MixedConn) RemoteAddr() net.Addr               { return &net.TCPAddr{IP: net.IPv4(127, 0, 0, 1), Port: 2} }
+func (c *c10MixedConn) SetDeadline(t time.Time) error      { return nil }
+func (c *c10MixedConn) SetReadDeadline(t time.Time) error  { return nil }
+func (c *c10MixedConn) SetWriteDeadline(t time.Time) error { return nil }
+
+// c10AssocTypes drives socks5.RunUDPAssociateLoop over such a transport: a reply datagram arrives while
+// the tunnel's write side is broken (the relay goroutine records a *net.OpError), then the tunnel's
+// read side ends (the other goroutine records io.EOF). The loop must return an error, not crash.
+func c10AssocTypes() c10Reply {
+	udpConn, err := net.ListenUDP("udp4", &net.UDPAddr{IP: net.IPv4(127, 0, 0, 1)})
+	if err != nil {
+		return c10Reply{Error: "listen: " + err.Error()}
+	}
+	dest, err := net.ListenUDP("udp4", &net.UDPAddr{IP: net.IPv4(127, 0, 0, 1)})
+	if err != nil {
+		return c10Reply{Error: "listen: " + err.Error()}
+	}
+	defer dest.Close()
+	mc := &c10MixedConn{release: make(chan struct{}), writes: make(chan struct{}, 1)}
+	done := make(chan error, 1)
+	go func() {
+		done <- socks5.RunUDPAssociateLoop(udpConn, apicommon.NewPacketOverStreamTunnel(mc), apicommon.NilDNSResolver{})
+	}()
+	dest.WriteToUDP([]byte("reply from a destination"), udpConn.LocalAddr().(*net.UDPAddr))
+	select {
+	case <-mc.writes:
+	case <-time.After(5 * time.Second):
+		return c10Reply{Error: "the relay never wrote the reply to the tunnel"}
+	}
+	time.Sleep(50 * time.Millisecond) // let the relay goroutine record its error and return
+	close(mc.release)
+	select {
+	case err := <-done:
+		return c10Reply{SetupOK: true, VictimLeft: fmt.Sprint(err)}
+	case <-time.After(5 * time.Second):
+		return c10Reply{Error: "RunUDPAssociateLoop did not return"}
+	}
+}
+
+// c10HostileContent fills b with bytes >= 0x80 that depend on the case and the step.
+func c10HostileContent(b []byte, seed int64, step int) {
+	for j := range b {
+		b[j] = 0x80 | byte((int(seed&0x7f)+step*7+j*13)&0x7f)
+	}
+}
+
+func c10HighBytes(b []byte) int {
+	n := 0
+	for _, x := range b {
+		if x >= 0x80 {
+			n++
+		}
+	}
+	return n
+}
 
 func c10ChildMain() {
 	in := bufio.NewReaderSize(os.Stdin, 1<<20)
@@ -953,6 +1129,8 @@ func c10ChildMain() {
 				} else {
 					reply(c.runClientCase(cmd.Case))
 				}
+			case "assoc-types":
+				reply(c10AssocTypes())
 			case "quit":
 				return
 			}
